@@ -30,7 +30,6 @@ type epochRef struct {
 	Items []payItem
 	// a reward denom of an active gauge with qualifying locks is worth more per unit than the minimum
 	PreciousInPlay bool
-	Notes          []string
 }
 
 type payItem struct {
@@ -495,6 +494,9 @@ func (w *World) block(ctx sdk.Context, l *Ledger, dt time.Duration, fail func(a,
 			continue
 		}
 		seen[b.assertion] = true
+		if sig != "" && !w.shorter(b.assertion, sig, l.Steps) {
+			continue
+		}
 		fail(b.assertion, sig, detail)
 	}
 	w.resync(ctx, l, vs)
@@ -587,4 +589,27 @@ func (w *World) resync(ctx sdk.Context, l *Ledger, vs map[uint64]gaugeView) {
 		g.Early = !g.Perp && v.Status == StFinished && g.Filled < g.N
 	}
 	l.Diverge++
+}
+
+// shorter keeps, per (assertion, class signature), the violation with the fewest ops since the seed: core's
+// AddViolation keeps the FIRST one per key, so a longer earlier instance is removed when a shorter one appears.
+func (w *World) shorter(assertion, sig string, steps int) bool {
+	key := assertion + "|" + sig
+	if w.best == nil {
+		w.best = map[string]int{}
+	}
+	if old, ok := w.best[key]; ok {
+		if steps >= old {
+			return false
+		}
+		vs := w.R.Violations[:0]
+		for _, v := range w.R.Violations {
+			if !(v.Assertion == assertion && v.Signature == sig) {
+				vs = append(vs, v)
+			}
+		}
+		w.R.Violations = vs
+	}
+	w.best[key] = steps
+	return true
 }
